@@ -3,9 +3,10 @@
 // entry whose key is at least k": every trait method of the real `impl Cursor for SstCursor<W>`, extracted
 // each run, is proved against the Cursor contract with  ents() = the concatenation of the data blocks,
 // for tables with ANY number of blocks of ANY size, over any contract-obeying block cursor, GIVEN the
-// index invariant that SstBuilder::flush_block establishes through divide_keys (proved in unit
-// sst_kernels):   last key of block i <= divider_i < first key of block i+1.
-// ASSUMED here: BlockCursor implements the Cursor contract (byte-level decoding not verified);
+// index invariant that SstBuilder::flush_block establishes through divide_keys:
+//     the blocks are consecutive pieces of one sorted stream and  keys of block i <= divider_i <= keys of block i+1
+// (not strict: the versions of one key may straddle a block boundary).
+// The block cursors are any cursors obeying the contract (BlockCursor: unit sst_block);
 // seek_index == partition_point over dividers sorted ascending; load_block_cursor(i) opens block i.
 use vstd::prelude::*;
 verus! {
@@ -77,48 +78,38 @@ struct Sst { index_entries: Vec<SstIndexEntry>, rest: SstRest }
 impl Sst {
     uninterp spec fn blocks(&self) -> Seq<Seq<Ent>>;
     spec fn div(&self, i: int) -> Seq<u8> { self.index_entries@[i].key@ }
-    // what the builder establishes: one divider per block, non-empty sorted blocks,
-    // last key of block i <= divider_i < first key of block i+1
+    // what the builder establishes: one divider per block, non-empty blocks cut out of ONE sorted stream of entries, and
+    // keys of block i <= divider_i <= keys of block i+1 (NOT strict: the versions of one key may straddle two blocks, the
+    // divider then carries that key)
     spec fn table_ok(&self) -> bool {
         let bs = self.blocks();
         &&& bs.len() == self.index_entries@.len() && bs.len() >= 1
         &&& forall|i: int| 0 <= i < bs.len() ==> (#[trigger] bs[i]).len() >= 1 && sorted(bs[i])
         &&& forall|i: int, j: int| 0 <= i < bs.len() && 0 <= j < bs[i].len() ==> lex_le(#[trigger] bs[i][j].key, self.div(i))
-        &&& forall|i: int, j: int| 0 <= i && i + 1 < bs.len() && 0 <= j < bs[i + 1].len() ==> lex_lt(self.div(i), #[trigger] bs[i + 1][j].key)
+        &&& forall|i: int, j: int| 0 <= i && i + 1 < bs.len() && 0 <= j < bs[i + 1].len() ==> lex_le(self.div(i), #[trigger] bs[i + 1][j].key)
+        &&& sorted(flat(bs, bs.len() as int))
     }
 }
 
-// the concatenation of the blocks is sorted (this is where divider_i sits between block i and block i+1)
+// keys do not decrease from one block to a later one (through the dividers)
 proof fn lemma_block_order(t: &Sst, i1: int, j1: int, i2: int, j2: int)
     requires t.table_ok(), 0 <= i1 < i2 < t.blocks().len(), 0 <= j1 < t.blocks()[i1].len(), 0 <= j2 < t.blocks()[i2].len()
-    ensures lex_lt(t.blocks()[i1][j1].key, t.blocks()[i2][j2].key)
+    ensures lex_le(t.blocks()[i1][j1].key, t.blocks()[i2][j2].key)
     decreases i2 - i1
 {
     let bs = t.blocks();
-    lemma_lex_order_total();
     if i1 + 1 == i2 {
         lemma_lex_trans(bs[i1][j1].key, t.div(i1), bs[i2][j2].key);
-        if bs[i1][j1].key == bs[i2][j2].key { lemma_lex_antisym(bs[i1][j1].key, t.div(i1)); }
     } else {
         lemma_block_order(t, i1, j1, i2 - 1, 0);
         lemma_block_order(t, i2 - 1, 0, i2, j2);
         lemma_lex_trans(bs[i1][j1].key, bs[i2 - 1][0].key, bs[i2][j2].key);
-        if bs[i1][j1].key == bs[i2][j2].key { lemma_lex_antisym(bs[i1][j1].key, bs[i2 - 1][0].key); }
     }
 }
 proof fn lemma_flat_sorted(t: &Sst)
     requires t.table_ok()
     ensures sorted(flat(t.blocks(), t.blocks().len() as int))
-{
-    let bs = t.blocks(); let n = bs.len() as int; let f = flat(bs, n);
-    assert forall|x: int, y: int| 0 <= x < y < f.len() implies kt_lt(f[x].key, f[x].ts, f[y].key, f[y].ts) by {
-        let a = lemma_flat_locate(bs, n, x);
-        let b = lemma_flat_locate(bs, n, y);
-        if a.0 == b.0 { assert(sorted(bs[a.0])); }
-        else if a.0 < b.0 { lemma_block_order(t, a.0, a.1, b.0, b.1); }
-        else { lemma_off_mono(bs, b.0 + 1, a.0); lemma_flat_index(bs, n, b.0, b.1); }
-    }
-}
+{ }
 
 spec fn block_below(t: &Sst, i: int, k: Seq<u8>) -> bool { forall|j: int| 0 <= j < t.blocks()[i].len() ==> lex_lt(#[trigger] t.blocks()[i][j].key, k) }
 
